@@ -18,7 +18,7 @@ RULE = (
     "(-0.0, 1e308, 5e-324); distinct = hash of the configuration"
 )
 ASSUMPTIONS = ["no NaN/Infinity and no lone surrogates (not JSON-representable)", "attribute keys as in C10"]
-GATES = ["mon.C11.export", "mon.C11.write", "mon.C11.import", "mon.C11.read", "C11.maxlevel_forwarded", "C11.custom_dictexporter", "C11.importer_kwargs", "C11.non_ascii", "C11.realfile", "C11.exporter_reused", "C11.handle_not_at_start"]
+GATES = ["mon.C11.export", "mon.C11.write", "mon.C11.import", "mon.C11.read", "C11.maxlevel_forwarded", "C11.custom_dictexporter", "C11.importer_kwargs", "C11.non_ascii", "C11.realfile", "C11.exporter_reused", "C11.handle_not_at_start", "C11.subclassed_dictexporter", "C11.tree_used_before_export"]
 
 
 def plan(tier, seed, jobs):
@@ -44,6 +44,12 @@ def check_one(ctx, lib, rng, par, attrs, kind, case):
     from anytree.importer import DictImporter, JsonImporter
 
     nodes, recorded = c10.build(lib, par, attrs, kind)
+    if case.get("used", len(par) % 2 == 0) and len(par) <= 10:
+        from .. import battery as B
+
+        ctx.count("C11.tree_used_before_export")
+        B.battery(nodes, level=0)
+        case = dict(case, used=True)
     ch = gen.children_of(par)
     n = len(par)
     nodecls = {"AnyNode": AnyNode, "Node": Node}.get(kind) or type(nodes[0])
@@ -53,7 +59,7 @@ def check_one(ctx, lib, rng, par, attrs, kind, case):
         s = rng.choice([0, rng.randrange(n)])
         h = R.height(ch, s)
         for ml in (None, rng.choice([0, 1, 2, h, h + 1])):
-            for mode in ("plain", "custom"):
+            for mode in ("plain", "custom", "subclass"):
                 cfg = dict(case, start=s, json_opts=repr(jopts), maxlevel=ml, mode=mode)
                 ctx.case((tuple(par), kind, s, oi, ml, mode, case["attrs_repr"][:80]), sample=cfg if ctx.evals % 3001 == 0 else None)
                 if mode == "plain":
@@ -64,6 +70,23 @@ def check_one(ctx, lib, rng, par, attrs, kind, case):
                         if ml <= h:
                             ctx.count("C11.maxlevel_forwarded")
                     exporter = JsonExporter(**kw)
+                elif mode == "subclass":
+                    # the supplied exporter is the application's own subclass: what *it* produces is serialised
+                    ctx.count("C11.subclassed_dictexporter")
+
+                    class StampingExporter(DictExporter):
+                        def export(self, node):
+                            data = super().export(node)
+                            data["exported_by"] = "stamp"
+                            return data
+
+                    de = StampingExporter()
+                    exp_dict = c10.ref_export(recorded, ch, s, ml, None, None, dict)
+                    exp_dict["exported_by"] = "stamp"
+                    kw = dict(jopts)
+                    if ml is not None:
+                        kw["maxlevel"] = ml
+                    exporter = JsonExporter(dictexporter=de, **kw)
                 else:
                     ctx.count("C11.custom_dictexporter")
                     de_ml = rng.choice([None, 1, 3])
@@ -84,7 +107,7 @@ def check_one(ctx, lib, rng, par, attrs, kind, case):
                 if got != exp_text:
                     # the insertion order of a node's instance dict is not part of the statement: accept the text only if it is
                     # exactly json.dumps of what the (C10-checked) DictExporter produces and that equals the reference up to key order
-                    real = (de if mode == "custom" else DictExporter(maxlevel=ml)).export(nodes[s])
+                    real = (de if mode != "plain" else DictExporter(maxlevel=ml)).export(nodes[s])
                     if not (isinstance(got, str) and got == json.dumps(real, **jopts) and c10.deep_eq(c10._plain(real), c10._plain(exp_dict))):
                         ctx.violation("C11/export/text", "json-dumps-of-reference", cfg, expected=exp_text[:600], observed=str(got)[:600])
                         return False
